@@ -14,8 +14,12 @@
 //!   {"conc_cli": null|k, "conc_builder": null|k, "ff_cli": bool, "ff_builder": bool,
 //!    "eager": bool, "hooks": bool, "seed": n, "p_parser": 0..100, "p_tick": 0..100,
 //!    "items": [ {"id": f, "empty_rules": n, "scenarios": [{"id": s, "rule": null|r, "serial": bool,
-//!                "retry": null|[n, null|delay_ms], "fails": k, "steps": n}]} | {"error": id} ]}
-//! Result: {"history": [...], "events": n, "terminated": bool, "rounds": n}
+//!                "retry": null|[n, null|delay_ms], "fails": k, "afails": k, "steps": n}]} | {"error": id} ]}
+//!   "after_hook": bool installs an after hook that panics in the first `afails` attempts of a scenario.
+//!   "before_hook": bool installs a before hook that panics in the first `bfails` attempts of a scenario — eagerly
+//!                  (in the hook function itself, before it returns its future) when `beager`, else inside the future.
+//! Result: {"history": [...], "events": n, "terminated": bool, "rounds": n,
+//!          "hook_calls_during_run": n, "hook_restored": bool}   (counting process panic hook, C10)
 //!   history records: ["top", batch, t] ["feat", t] ["ev", <event JSON>, t] ["stim", "P"|"G"|"T", arg, t]
 //!                    ["cb", 0 enter|1 exit, scenario, attempt-visit, t] ["stutter", t] ["end", t]
 
@@ -56,6 +60,10 @@ struct St {
     gates: BTreeMap<u64, GateSt>,
     visits: BTreeMap<u64, u64>,   // scenario -> attempts seen (first-callback entries)
     fails: BTreeMap<u64, u64>,    // scenario -> number of failing attempts
+    afails: BTreeMap<u64, u64>,   // scenario -> number of attempts whose after hook panics
+    bfails: BTreeMap<u64, (u64, bool)>, // scenario -> number of attempts whose before hook panics, eagerly?
+    bvisits: BTreeMap<u64, u64>,  // scenario -> before-hook calls (= attempts, when the before hook is installed)
+    use_before: bool,
     steps: BTreeMap<u64, u64>,    // scenario -> number of steps per attempt
     step_no: BTreeMap<u64, u64>,  // scenario -> steps entered in the current attempt
     parser_allowed: usize,
@@ -124,7 +132,11 @@ fn gated_step(_: &mut W, ctx: step::Context) -> LocalBoxFuture<'_, ()> {
             if last {
                 *no = 0;
             }
-            let k = s.visits.get(&sid).copied().unwrap_or(1) - 1;
+            let k = if s.use_before {
+                s.bvisits.get(&sid).copied().unwrap_or(1).saturating_sub(1)
+            } else {
+                s.visits.get(&sid).copied().unwrap_or(1) - 1
+            };
             (k, last, s.fails.get(&sid).copied().unwrap_or(0))
         });
         verif_trace::record("cb", sid, k * 2);
@@ -137,6 +149,63 @@ fn gated_step(_: &mut W, ctx: step::Context) -> LocalBoxFuture<'_, ()> {
     }
     .boxed_local()
 }
+
+/// After hook: panics in the first `afails` attempts of the scenario (the steps of the attempt have run, so
+/// `visits` already counts it).
+fn after_hook<'a>(
+    _: &'a gherkin::Feature,
+    _: Option<&'a gherkin::Rule>,
+    sc: &'a gherkin::Scenario,
+    _: &'a cucumber::event::ScenarioFinished,
+    _: Option<&'a mut W>,
+) -> LocalBoxFuture<'a, ()> {
+    let sid = sc.position.line as u64;
+    let (k, n) = ST.with(|s| {
+        let s = s.borrow();
+        let k = if s.use_before {
+            s.bvisits.get(&sid).copied().unwrap_or(1).saturating_sub(1)
+        } else {
+            s.visits.get(&sid).copied().unwrap_or(1).saturating_sub(1)
+        };
+        (k, s.afails.get(&sid).copied().unwrap_or(0))
+    });
+    async move {
+        if k < n {
+            std::panic::panic_any(format!("panic#{}", 50 + k));
+        }
+    }
+    .boxed_local()
+}
+
+/// Before hook: called once per attempt, first thing; panics in the first `bfails` attempts of the scenario.
+fn before_hook<'a>(
+    _: &'a gherkin::Feature,
+    _: Option<&'a gherkin::Rule>,
+    sc: &'a gherkin::Scenario,
+    _: &'a mut W,
+) -> LocalBoxFuture<'a, ()> {
+    let sid = sc.position.line as u64;
+    let (k, (n, eager)) = ST.with(|s| {
+        let mut s = s.borrow_mut();
+        let v = s.bvisits.entry(sid).or_insert(0);
+        *v += 1;
+        let k = *v - 1;
+        // a failed before hook ends the attempt without any step: the next attempt starts with step 1
+        s.step_no.insert(sid, 0);
+        (k, s.bfails.get(&sid).copied().unwrap_or((0, false)))
+    });
+    if eager && k < n {
+        std::panic::panic_any(format!("panic#{}", 70 + k));
+    }
+    async move {
+        if k < n {
+            std::panic::panic_any(format!("panic#{}", 70 + k));
+        }
+    }
+    .boxed_local()
+}
+
+static HOOK_CALLS: AtomicU64 = AtomicU64::new(0);
 
 struct LazyParser {
     items: Vec<parser::Result<gherkin::Feature>>,
@@ -269,6 +338,8 @@ pub fn run(case: &Value) -> Value {
                 ST.with(|s| {
                     let mut s = s.borrow_mut();
                     s.fails.insert(sid, sc["fails"].as_u64().unwrap_or(0));
+                    s.afails.insert(sid, sc["afails"].as_u64().unwrap_or(0));
+                    s.bfails.insert(sid, (sc["bfails"].as_u64().unwrap_or(0), sc["beager"].as_bool().unwrap_or(false)));
                     s.steps.insert(sid, sc["steps"].as_u64().unwrap_or(1));
                 });
             }
@@ -294,7 +365,21 @@ pub fn run(case: &Value) -> Value {
         fail_fast: case["ff_cli"].as_bool().unwrap_or(false),
         ..runner::basic::Cli::default()
     };
-    let mut evs = r.run(LazyParser { items, delivered: 0 }, cli);
+    // counting process panic hook (C10): nothing may reach it while the run is in progress
+    HOOK_CALLS.store(0, Ordering::SeqCst);
+    let prev_hook = std::panic::take_hook();
+    std::panic::set_hook(Box::new(|_| {
+        HOOK_CALLS.fetch_add(1, Ordering::SeqCst);
+    }));
+    let parser = LazyParser { items, delivered: 0 };
+    let use_before = case["before_hook"].as_bool().unwrap_or(false);
+    ST.with(|s| s.borrow_mut().use_before = use_before);
+    let mut evs = match (use_before, case["after_hook"].as_bool().unwrap_or(false)) {
+        (true, true) => r.before(before_hook).after(after_hook).run(parser, cli).boxed_local(),
+        (true, false) => r.before(before_hook).run(parser, cli).boxed_local(),
+        (false, true) => r.after(after_hook).run(parser, cli).boxed_local(),
+        (false, false) => r.run(parser, cli).boxed_local(),
+    };
 
     let flag = Arc::new(Flag(AtomicBool::new(true)));
     let waker = Waker::from(Arc::clone(&flag));
@@ -302,7 +387,7 @@ pub fn run(case: &Value) -> Value {
     let mut done = false;
     let mut received: Vec<Value> = Vec::new();
 
-    let mut pump = |evs: &mut <runner::Basic<W> as cucumber::Runner<W>>::EventStream,
+    let mut pump = |evs: &mut futures::stream::LocalBoxStream<'_, parser::Result<cucumber::Event<cucumber::event::Cucumber<W>>>>,
                     done: &mut bool,
                     received: &mut Vec<Value>| {
         let mut idle = 0;
@@ -396,6 +481,16 @@ pub fn run(case: &Value) -> Value {
         pump(&mut evs, &mut done, &mut received);
     }
 
+    drop(evs);
+    let during = HOOK_CALLS.load(Ordering::SeqCst);
+    // is the hook installed before the run back in place?
+    let _ = std::thread::spawn(|| {
+        let _ = std::panic::catch_unwind(|| std::panic::panic_any(0u8));
+    })
+    .join();
+    let after_marker = HOOK_CALLS.load(Ordering::SeqCst);
+    std::panic::set_hook(prev_hook);
+
     // one ordered history: the k-th "ev" record is the k-th event of the stream
     let trace = verif_trace::take();
     let mut history = Vec::new();
@@ -424,5 +519,7 @@ pub fn run(case: &Value) -> Value {
         "events_traced": next_ev,
         "terminated": done,
         "rounds": rounds,
+        "hook_calls_during_run": during,
+        "hook_restored": !done || after_marker == during + 1,
     })
 }
